@@ -274,7 +274,7 @@ fn replay_cert_params(input: &Value) -> R {
 	if !p.crl_distribution_points.is_empty() {
 		req.push((OID_CRLDP.into(), false));
 	}
-	if p.is_ca != IsCa::NoCa {
+	if !matches!(p.is_ca, IsCa::NoCa) {
 		req.push((OID_SKI.into(), false));
 		req.push((OID_BC.into(), true));
 	}
@@ -282,7 +282,7 @@ fn replay_cert_params(input: &Value) -> R {
 		let oid: Vec<String> = c.oid_components().map(|x| x.to_string()).collect();
 		req.push((oid.join("."), c.criticality()));
 	}
-	let explicit_no_ca = p.is_ca == IsCa::ExplicitNoCa;
+	let explicit_no_ca = matches!(p.is_ca, IsCa::ExplicitNoCa);
 	let want_ku: u16 = p.key_usages.iter().fold(0, |a, k| {
 		a | (0x8000u16 >> (0..9).find(|i| ku_of(*i) == *k).unwrap() as u32)
 	});
@@ -928,7 +928,7 @@ fn replay_cidr(input: &Value) -> R {
 fn replay_csr_refusal(input: &Value) -> R {
 	let p = params_of(input)?;
 	let must_refuse = p.serial_number.is_some()
-		|| p.is_ca != IsCa::NoCa
+		|| !matches!(p.is_ca, IsCa::NoCa)
 		|| p.name_constraints.is_some()
 		|| !p.crl_distribution_points.is_empty()
 		|| p.use_authority_key_identifier_extension;
